@@ -3,9 +3,9 @@
 wt=$1; sd=$2
 cd "$wt" || exit 9
 git checkout -q -- . 
-bash "$sd/demo.sh" > "$sd/confirm_demo_clean.log" 2>&1; clean=$?
+bash "$(ls $sd/demo.sh $sd/run_demo.sh 2>/dev/null | head -1)" > "$sd/confirm_demo_clean.log" 2>&1; clean=$?
 git checkout -q -- . ; git apply "$sd/patch.diff" || { echo "SEED $sd: patch does not apply"; exit 9; }
-bash "$sd/demo.sh" > "$sd/confirm_demo_patched.log" 2>&1; patched=$?
+bash "$(ls $sd/demo.sh $sd/run_demo.sh 2>/dev/null | head -1)" > "$sd/confirm_demo_patched.log" 2>&1; patched=$?
 git checkout -q -- . ; git apply "$sd/patch.diff"
 cargo test --offline --workspace --no-fail-fast > "$sd/confirm_suite_patched.log" 2>&1; suite=$?
 nfail=$(grep -c "\.\.\. FAILED" "$sd/confirm_suite_patched.log"); npass=$(grep -c "\.\.\. ok" "$sd/confirm_suite_patched.log")
